@@ -173,6 +173,9 @@ func (ex *Exec) applyCall(st *State, fr *Frame, instr ssa.Instruction, c *ssa.Ca
 		k(st, fr, Val{Typ: resT})
 		return
 	}
+	if strings.HasPrefix(name, "sort.") || strings.HasPrefix(name, "slices.Sort") || strings.HasPrefix(name, "slices.Reverse") {
+		ex.unsupported("call to %s mutates a slice in place (slices are modelled with value semantics)", name)
+	}
 	ex.use("havoc-result:" + name)
 	st.bump(name)
 	k(st, fr, ex.symVal(st, resT, "ret."+shortName(name)))
@@ -445,6 +448,12 @@ func (ex *Exec) contractCall(st *State, fr *Frame, instr ssa.Instruction, fn *ss
 				ms.arr[m] = true
 			}
 		}
+		// counters outside the frame-checked classes are havoced regardless of the declaration
+		for _, c := range ex.expandCounters(st, ex.funcModSet(fn)) {
+			if !frameCounter(c) {
+				ms.cnt[c] = true
+			}
+		}
 	} else {
 		ms = ex.funcModSet(fn)
 	}
@@ -475,7 +484,9 @@ func (ex *Exec) contractCall(st *State, fr *Frame, instr ssa.Instruction, fn *ss
 		if open != nil && open[key+"/"+c.name()] {
 			continue // a postcondition known to be false is not assumed
 		}
-		st.assume(ex.evalClause(st, pf, c, nil))
+		if g, ok := ex.evalAtCallSite(st, pf, c); ok {
+			st.assume(g)
+		}
 	}
 	return ret
 }
@@ -552,7 +563,10 @@ func (ex *Exec) builtin(st *State, fr *Frame, instr ssa.Instruction, b *ssa.Buil
 		if more.T == "0" {
 			return s
 		}
-		// append(s, single...) where more is a one-element fresh slice: detect via known length
+		// append(s, x): the variadic slice is a one-element literal built just before the call
+		if ev := ex.sliceVals[more.T]; len(ev) == 1 {
+			return ex.appendOne(st, s, ev[0].T, so, resT)
+		}
 		return ex.appendSlice(st, s, more, so, resT)
 	case "delete":
 		ex.disciplineMap(st, fr, instr, args[0], true)
